@@ -131,6 +131,8 @@ func WriteFile(tempDir, path string, content []byte) (writeErr error) {
 	if err != nil {
 		return fmt.Errorf("failed to create temp file: %w", err)
 	}
+	verifHook("temp_created", tempFile.Name(), path)
+	defer verifHook("return", tempFile.Name(), path)
 	defer func() {
 		// remove the temp file in case of error
 		if writeErr != nil {
@@ -142,11 +144,13 @@ func WriteFile(tempDir, path string, content []byte) (writeErr error) {
 	if _, err := tempFile.Write(content); err != nil {
 		return fmt.Errorf("failed to write content to temp file: %w", err)
 	}
+	verifHook("content_written", tempFile.Name(), path)
 
 	// close before moving
 	if err := tempFile.Close(); err != nil {
 		return fmt.Errorf("failed to close temp file: %w", err)
 	}
+	verifHook("closed", tempFile.Name(), path)
 
 	// rename is atomic on UNIX-like platforms
 	return os.Rename(tempFile.Name(), path)
